@@ -1,8 +1,12 @@
-(* The verification VM: a fuelled depth-first interpreter with backtracking, proved sound with
-   respect to Halts / the committed timeline.  Every run the harness performs on the extracted
-   VM therefore carries a theorem instance: OHalt is a proof that the machine halts on its
-   committed timeline, OAbsorbed/OFault a proof that it never halts together with its committed
-   event trace.  OFuel is "no verdict". *)
+(* The verification VM: a fuelled interpreter with backtracking, proved sound with respect to
+   Halts / the committed timeline.  Every run the harness performs on the extracted VM therefore
+   carries a theorem instance: OHalt is a proof that the machine halts on its committed
+   timeline, OAbsorbed/OFault a proof that it never halts together with its committed event
+   trace.  OFuel / OStop are "no verdict".
+
+   The pending Turing jumps are kept on an explicit stack (so the extracted code is a loop, not a
+   deep recursion) and the fuel bounds the TOTAL number of executed instructions, speculative
+   ones included. *)
 From Coq Require Import ZArith List Bool Lia FMapPositive.
 From HidV Require Import Machine Halts.
 Import ListNotations.
@@ -35,6 +39,12 @@ Proof.
   apply andb_prop in H; destruct H as [H1 H2]. apply Z.eqb_eq in H1. apply mem_eqb_eq in H2. now subst.
 Qed.
 
+(* a pending Turing jump: the state at the jump, its two successors, and what had been
+   accumulated when it was reached *)
+Record frame := mkframe {
+  fs : state; fsn : state; fsj : state;
+  facc : list event; fsnaps : list state; flast : option state }.
+
 Section VM.
 Variable w : Z.
 Variable code : Z -> option instr.
@@ -54,30 +64,34 @@ Definition is_sleep (s : state) : bool :=
   match code (pc s) with Some (ISleep _) => true | _ => false end.
 Definition cons_ev (e : option event) (acc : list event) : list event :=
   match e with Some v => v :: acc | None => acc end.
-
 Definition snap (s : state) (sn : list state) : list state := if watch s then s :: sn else sn.
 
-Fixpoint vm (fuel : nat) (s : state) (acc : list event) (sn : list state) (last : option state) : outcome :=
+Fixpoint vm (fuel : nat) (s : state) (acc : list event) (sn : list state) (last : option state)
+         (stk : list frame) : outcome :=
   match fuel with
   | O => OFuel (rev acc) (rev sn)
   | S f =>
       if negb (mon s) then OStop (rev acc) s (rev sn) else
       match act s with
-      | AHalt => OHalt
+      | AHalt =>
+          match stk with
+          | [] => OHalt
+          | fr :: rest =>
+              (* the fall-through of the most recent pending jump halts: the jump is taken *)
+              if state_eqb (fsj fr) (fs fr) then OAbsorbed (rev (facc fr)) (fs fr) (rev (fsnaps fr))
+              else vm f (fsj fr) (facc fr) (fsnaps fr) (flast fr) rest
+          end
       | AFault => OFault (rev acc) s (rev sn)
       | ANext s' e =>
           if is_sleep s then
             match last with
             | Some l => if state_eqb l s then OAbsorbed (rev acc) s (rev sn)
-                        else vm f s' (cons_ev e acc) (snap s sn) (Some s)
-            | None => vm f s' (cons_ev e acc) (snap s sn) (Some s)
+                        else vm f s' (cons_ev e acc) (snap s sn) (Some s) stk
+            | None => vm f s' (cons_ev e acc) (snap s sn) (Some s) stk
             end
-          else vm f s' (cons_ev e acc) (snap s sn) last
+          else vm f s' (cons_ev e acc) (snap s sn) last stk
       | AJump s1 sj =>
-          match vm f s1 acc (snap s sn) last with
-          | OHalt => if state_eqb sj s then OAbsorbed (rev acc) s (rev sn) else vm f sj acc (snap s sn) last
-          | r => r
-          end
+          vm f s1 acc (snap s sn) last (mkframe s s1 sj acc (snap s sn) last :: stk)
       end
   end.
 
@@ -89,95 +103,137 @@ Qed.
 Lemma rev_cons_ev e acc : rev (cons_ev e acc) = rev acc ++ evl e.
 Proof. destruct e; simpl; [reflexivity | now rewrite app_nil_r]. Qed.
 
-Definition good (s0 s : state) (acc : list event) (last : option state) : Prop :=
-  (~ Halts s -> csteps s0 (rev acc) s) /\
-  (forall l, last = Some l -> splus l s /\ (~ Halts s -> cplus l s)).
+Section Sound.
+Variable s0 : state.                      (* the state the whole run started from *)
 
-Definition verdict_ok (s0 s : state) (o : outcome) : Prop :=
+(* what is known about the current state c, its accumulated events and the last watched sleep *)
+Definition good (c : state) (acc : list event) (last : option state) : Prop :=
+  (~ Halts c -> csteps s0 (rev acc) c) /\
+  (forall l, last = Some l -> splus l c /\ (~ Halts c -> cplus l c)).
+
+(* the pending jumps: c is being explored as (a descendant of) the fall-through of the top
+   frame's jump, and haltingness is transported along the whole chain down to s0 *)
+Fixpoint stk_ok (c : state) (stk : list frame) : Prop :=
+  match stk with
+  | [] => Halts c <-> Halts s0
+  | fr :: rest =>
+      (Halts c <-> Halts (fsn fr)) /\ act (fs fr) = AJump (fsn fr) (fsj fr) /\
+      good (fs fr) (facc fr) (flast fr) /\ stk_ok (fs fr) rest
+  end.
+
+Lemma stk_ok_iff a b stk : (Halts a <-> Halts b) -> stk_ok a stk -> stk_ok b stk.
+Proof. destruct stk as [|fr rest]; simpl; intros E H; [tauto|]. destruct H as (H1 & H2 & H3 & H4). tauto. Qed.
+
+Lemma stk_not_halts : forall stk c, stk_ok c stk -> ~ Halts c -> ~ Halts s0.
+Proof.
+  induction stk as [|fr rest IH]; simpl; intros c H N; [tauto|].
+  destruct H as (H1 & H2 & H3 & H4). apply (IH (fs fr) H4).
+  intro Hs. eapply halts_jump_inv in Hs; eauto. tauto.
+Qed.
+
+Definition verdict_ok (o : outcome) : Prop :=
   match o with
-  | OHalt => Halts s
-  | OAbsorbed evs s' _ => ~ Halts s /\ csteps s0 evs s' /\ cplus s' s'
-  | OFault evs s' _ => ~ Halts s /\ csteps s0 evs s' /\ act s' = AFault
+  | OHalt => Halts s0
+  | OAbsorbed evs s' _ => ~ Halts s0 /\ csteps s0 evs s' /\ cplus s' s'
+  | OFault evs s' _ => ~ Halts s0 /\ csteps s0 evs s' /\ act s' = AFault
   | OStop _ _ _ | OFuel _ _ => True
   end.
 
-Lemma verdict_weaken s0 s s' o :
-  (Halts s' -> Halts s) -> (~ Halts s' -> ~ Halts s) -> verdict_ok s0 s' o -> verdict_ok s0 s o.
-Proof. destruct o; simpl; tauto. Qed.
-
-Lemma vm_sound_gen fuel : forall s acc sp last s0,
-  good s0 s acc last -> verdict_ok s0 s (vm fuel s acc sp last).
+Lemma good_next c c' e acc last : act c = ANext c' e -> good c acc last -> good c' (cons_ev e acc) last.
 Proof.
-  induction fuel as [|f IH]; intros s acc sp last s0 [Hacc Hlast]; cbn [vm]; [exact I|].
-  destruct (mon s); cbn [negb]; [|exact I].
-  destruct (act s) as [|s' e|sn sj|] eqn:A.
-  - (* halt *) simpl. now apply H_halt.
-  - (* next *)
-    assert (Hs' : Halts s' -> Halts s) by (intro; eapply H_next; eauto).
-    assert (Hn' : ~ Halts s' -> ~ Halts s) by (intros N H; apply N; eapply halts_next_inv; eauto).
-    assert (Cst : cstep s e s') by (now apply C_next).
-    assert (G1 : good s0 s' (cons_ev e acc) last).
-    { split.
-      - intros N. rewrite rev_cons_ev. eapply csteps_snoc; eauto.
-      - intros l El. destruct (Hlast l El) as [P1 P2]. split.
-        + eapply splus_snoc; eauto using cstep_succ.
-        + intros N. eapply cplus_snoc; eauto. }
-    assert (G2 : good s0 s' (cons_ev e acc) (Some s)).
-    { split.
-      - intros N. rewrite rev_cons_ev. eapply csteps_snoc; eauto.
-      - intros l El. injection El as <-. split.
-        + apply SP_one. eauto using cstep_succ.
-        + intros _. eapply P_one; eauto. }
-    destruct (is_sleep s).
-    + destruct last as [l|].
-      * destruct (state_eqb l s) eqn:Eq.
-        -- apply state_eqb_eq in Eq. subst l. destruct (Hlast s eq_refl) as [P1 P2].
-           assert (N : ~ Halts s) by (now apply succ_cycle_not_halts).
-           simpl. auto.
-        -- eapply verdict_weaken; [exact Hs' | exact Hn' | apply IH, G2].
-      * eapply verdict_weaken; [exact Hs' | exact Hn' | apply IH, G2].
-    + eapply verdict_weaken; [exact Hs' | exact Hn' | apply IH, G1].
-  - (* jump *)
-    assert (Hnn : ~ Halts sn -> ~ Halts s) by (intros N H; eapply halts_jump_inv in H; eauto; tauto).
-    assert (Hnj : ~ Halts sj -> ~ Halts s) by (intros N H; eapply halts_jump_inv in H; eauto; tauto).
-    assert (Gn : good s0 sn acc last).
-    { split.
-      - intros N. rewrite <- (app_nil_r (rev acc)). change (@nil event) with (evl None).
-        eapply csteps_snoc; [apply Hacc; auto | eapply C_fall; eauto].
-      - intros l El. destruct (Hlast l El) as [P1 P2]. split.
-        + eapply splus_snoc; eauto using succ.
-        + intros N. eapply cplus_snoc; [apply P2; auto | eapply C_fall; eauto]. }
-    pose proof (IH sn acc (snap s sp) last s0 Gn) as Rn.
-    destruct (vm f sn acc (snap s sp) last) as [|evs sa ?|evs sf ?|? ? ?|evs ?] eqn:En.
-    + (* fall-through halts: the jump is taken *)
-      simpl in Rn.
-      destruct (state_eqb sj s) eqn:Eq.
-      * apply state_eqb_eq in Eq. subst sj.
-        assert (N : ~ Halts s) by (apply succ_cycle_not_halts; apply SP_one; eapply S_r; eauto).
-        simpl. split; [exact N|]. split; [auto|]. eapply P_one. eapply C_take; eauto.
-      * assert (Gj : good s0 sj acc last).
-        { split.
-          - intros N. rewrite <- (app_nil_r (rev acc)). change (@nil event) with (evl None).
-            eapply csteps_snoc; [apply Hacc; auto | eapply C_take; eauto].
-          - intros l El. destruct (Hlast l El) as [P1 P2]. split.
-            + eapply splus_snoc; eauto using succ.
-            + intros N. eapply cplus_snoc; [apply P2; auto | eapply C_take; eauto]. }
-        eapply verdict_weaken; [| exact Hnj | apply IH, Gj].
-        intro Hj. eapply H_jump; eauto.
-    + simpl in *. tauto.
-    + simpl in *. tauto.
-    + exact I.
-    + exact I.
-  - (* fault *)
-    assert (N : ~ Halts s) by (now apply halts_fault_inv).
-    simpl. auto.
+  intros A [Hacc Hlast]. assert (Cst : cstep c e c') by (now apply C_next).
+  assert (Hn' : ~ Halts c' -> ~ Halts c) by (intros N H; apply N; eapply halts_next_inv; eauto).
+  split.
+  - intros N. rewrite rev_cons_ev. eapply csteps_snoc; eauto.
+  - intros l El. destruct (Hlast l El) as [P1 P2]. split.
+    + eapply splus_snoc; eauto using cstep_succ.
+    + intros N. eapply cplus_snoc; eauto.
+Qed.
+Lemma good_next_mark c c' e acc last : act c = ANext c' e -> good c acc last -> good c' (cons_ev e acc) (Some c).
+Proof.
+  intros A [Hacc Hlast]. assert (Cst : cstep c e c') by (now apply C_next).
+  assert (Hn' : ~ Halts c' -> ~ Halts c) by (intros N H; apply N; eapply halts_next_inv; eauto).
+  split.
+  - intros N. rewrite rev_cons_ev. eapply csteps_snoc; eauto.
+  - intros l El. injection El as <-. split.
+    + apply SP_one. eauto using cstep_succ.
+    + intros _. eapply P_one; eauto.
+Qed.
+Lemma good_fall c s1 sj acc last : act c = AJump s1 sj -> good c acc last -> good s1 acc last.
+Proof.
+  intros A [Hacc Hlast].
+  assert (Hnn : ~ Halts s1 -> ~ Halts c) by (intros N H; eapply halts_jump_inv in H; eauto; tauto).
+  split.
+  - intros N. rewrite <- (app_nil_r (rev acc)). change (@nil event) with (evl None).
+    eapply csteps_snoc; [apply Hacc; auto | eapply C_fall; eauto].
+  - intros l El. destruct (Hlast l El) as [P1 P2]. split.
+    + eapply splus_snoc; eauto using succ.
+    + intros N. eapply cplus_snoc; [apply P2; auto | eapply C_fall; eauto].
+Qed.
+Lemma good_take c s1 sj acc last : act c = AJump s1 sj -> Halts s1 -> good c acc last -> good sj acc last.
+Proof.
+  intros A H1 [Hacc Hlast].
+  assert (Hnj : ~ Halts sj -> ~ Halts c) by (intros N H; eapply halts_jump_inv in H; eauto; tauto).
+  split.
+  - intros N. rewrite <- (app_nil_r (rev acc)). change (@nil event) with (evl None).
+    eapply csteps_snoc; [apply Hacc; auto | eapply C_take; eauto].
+  - intros l El. destruct (Hlast l El) as [P1 P2]. split.
+    + eapply splus_snoc; eauto using succ.
+    + intros N. eapply cplus_snoc; [apply P2; auto | eapply C_take; eauto].
 Qed.
 
-Definition run (fuel : nat) (s : state) : outcome := vm fuel s [] [] None.
-
-Theorem vm_sound fuel s : verdict_ok s s (run fuel s).
+Lemma vm_sound_gen fuel : forall c acc sp last stk,
+  good c acc last -> stk_ok c stk -> verdict_ok (vm fuel c acc sp last stk).
 Proof.
-  apply vm_sound_gen. split; [intros _; constructor | intros l E; discriminate].
+  induction fuel as [|f IH]; intros c acc sp last stk G K; cbn [vm]; [exact I|].
+  destruct (mon c); cbn [negb]; [|exact I].
+  destruct (act c) as [|c' e|s1 sj|] eqn:A.
+  - (* halt *)
+    assert (Hc : Halts c) by (now apply H_halt).
+    destruct stk as [|fr rest]; [simpl in *; tauto|].
+    simpl in K. destruct K as (K1 & K2 & K3 & K4).
+    assert (Hsn : Halts (fsn fr)) by tauto.
+    destruct (state_eqb (fsj fr) (fs fr)) eqn:Eq.
+    + apply state_eqb_eq in Eq.
+      assert (N : ~ Halts (fs fr)).
+      { apply succ_cycle_not_halts. apply SP_one. eapply S_r. rewrite <- Eq at 2. exact K2. }
+      simpl. split; [exact (stk_not_halts rest (fs fr) K4 N)|]. split; [apply K3; exact N|].
+      eapply P_one. rewrite <- Eq at 2. eapply C_take; eauto.
+    + apply IH.
+      * eapply good_take; eauto.
+      * eapply stk_ok_iff; [|exact K4]. split; intro H.
+        -- eapply halts_jump_inv in H; eauto; tauto.
+        -- eapply H_jump; eauto.
+  - (* next *)
+    assert (E : Halts c <-> Halts c').
+    { split; intro H; [eapply halts_next_inv; eauto | eapply H_next; eauto]. }
+    assert (K' : stk_ok c' stk) by (eapply stk_ok_iff; eauto).
+    destruct (is_sleep c).
+    + destruct last as [l|].
+      * destruct (state_eqb l c) eqn:Eq.
+        -- apply state_eqb_eq in Eq. subst l. destruct G as [G1 G2]. destruct (G2 c eq_refl) as [P1 P2].
+           assert (N : ~ Halts c) by (now apply succ_cycle_not_halts).
+           simpl. split; [exact (stk_not_halts stk c K N)|]. split; [apply G1; exact N | apply P2; exact N].
+        -- apply IH; [eapply good_next_mark; eauto | exact K'].
+      * apply IH; [eapply good_next_mark; eauto | exact K'].
+    + apply IH; [eapply good_next; eauto | exact K'].
+  - (* jump: explore the fall-through with the jump pending *)
+    apply IH.
+    + eapply good_fall; eauto.
+    + simpl. split; [tauto|]. split; [exact A|]. split; [exact G | exact K].
+  - (* fault *)
+    assert (N : ~ Halts c) by (now apply halts_fault_inv).
+    destruct G as [G1 G2]. simpl. split; [exact (stk_not_halts stk c K N)|]. split; [apply G1; exact N | exact A].
+Qed.
+End Sound.
+
+Definition run (fuel : nat) (s : state) : outcome := vm fuel s [] [] None [].
+
+Theorem vm_sound fuel s : verdict_ok s (run fuel s).
+Proof.
+  apply vm_sound_gen.
+  - split; [intros _; constructor | intros l E; discriminate].
+  - simpl. tauto.
 Qed.
 
 Corollary vm_halt_is_committed_halt fuel s : run fuel s = OHalt -> Halts s.
